@@ -31,14 +31,51 @@ from . import schema_gen as G
 ID = "C12"
 MOD = "harness.props.c12"
 T = "MetadorModel.C12."
+B = "MetadorModel.Bridge.CodecFns."
+P = "MetadorModel.CodecParsers."
+# translated tie (harness/translate_c12.py): one bridge module per source file, so that a broken proof is attributed to
+# the file that changed; Bridge.CodecFns transfers the property-level facts to the translated functions
+BRIDGE = dict(
+    Base=["gen_mod_def_dump_args", "gen_json", "gen_json_dict", "gen_yaml", "gen_bytes", "gen_str", "gen_parse_file", "gen_parse_raw",
+          "gen_config", "gen_metaclass_BaseModelPlus"],
+    Enc=["gen_json_encoder", "gen_add_json_encoder", "gen_dynamize_encoder", "gen_mixin_init", "gen_registry"],
+    Core=["gen_key_constflds", "gen_override_consts_pre", "gen_override_consts", "gen_schema_extra", "gen_magic_init"],
+    Meta=["gen_class_init_DynEncoderModelMetaclass", "gen_class_init_SchemaMagic", "gen_class_init_SchemaMetaclass",
+          "gen_metaclass_MetadataSchema"],
+    Parser=["gen_baseparser_attrs", "gen_baseparser_parse", "gen_run_parser", "gen_get_parser", "gen_get_validators", "gen_modify_schema",
+            "gen_duration_parse", "gen_string_parse", "gen_pint_parse", "gen_parser_classes", "gen_opq_validators", "gen_validate_opq"],
+    Num=["gen_num_cfg", "gen_num_parse"],
+)
+BRIDGE_TOP = ["gen_encoder_reaches_all_classes", "gen_declared_metaclasses", "gen_roundtrip_json", "gen_roundtrip_bytes", "gen_roundtrip_yaml",
+              "gen_json_dict_constants", "gen_override_consts_decode", "gen_env_norm", "gen_env_crash", "gen_num_own_output"]
+PARSER_FACTS = ["encodeVia_classLeaf", "pydanticLeaf_fails", "forcedKw_keeps", "jsonText_default", "parseRaw_own_json", "parseRaw_own_bytes",
+                "parseRaw_own_yaml", "jsonDict_default", "parseRaw_crash", "decode_opq_envOf", "pint_never_crashes", "validatorsOf_idem",
+                "decode_overrideConsts", "schemaExtraLoop_spec", "schemaExtra_spec", "numParse_bool_refused", "numParse_unitless",
+                "numParse_own_output", "numParse_number_good"]
 LEAN = dict(
-    modules=["MetadorModel.Props.C12"],
+    modules=["MetadorModel.Props.C12", "MetadorModel.Proofs.CodecParsers"]
+    + ["MetadorModel.Bridge.CodecFns" + k for k in BRIDGE] + ["MetadorModel.Bridge.CodecFns"],
     theorems=[T + n for n in [
         "roundtrip", "roundtrip_at", "roundtrip_idempotent", "constants_forced", "constants_forced_nested", "subObjs_decoded", "encode_subObjs",
         "constants_ignored", "omitted_optional_stable",
-        "explicit_none_reads_default", "roundtrip_needs_unit", "legacy_opaque_not_serialisable"]],
+        "explicit_none_reads_default", "roundtrip_needs_unit", "legacy_opaque_not_serialisable"]]
+    + [P + n for n in PARSER_FACTS] + [B + n for k in BRIDGE for n in BRIDGE[k]] + [B + n for n in BRIDGE_TOP],
     drivers=["drv_cod"],
 )
+
+
+def translate(ctx):
+    """regenerate Gen/CodecFns.lean from the current source of schema/base.py, core.py, encoder.py, parser.py, types.py and
+    schema/common/__init__.py (harness/translate_c12.py lists the functions and the value dictionary)"""
+    from .. import translate_c12
+    try:
+        return translate_c12.write(lean)
+    except translate_c12.PartlyTranslated:
+        raise  # the functions that were understood are written; only the bridge modules that mention the others fail
+    except Exception as e:  # noqa: BLE001
+        # leave no text of an earlier run (possibly of another tree) behind
+        translate_c12.write_stub(lean, "%s: %s" % (type(e).__name__, e))
+        raise
 
 NF = {}  # normal-form tables of the opaque codecs, filled by run() through a worker
 
